@@ -32,6 +32,7 @@ type Contract struct {
 	LoopMod   map[int][]string
 	Assumed   bool // contract is trusted, body not verified
 	MayPanic  bool
+	NoSafety  bool // do not generate the zero-annotation safety obligations for this function
 	Uncalled  bool // the function must have no caller in the loaded program
 	GhostOnly bool // applied in addition to the built-in model of the callee (ghost effects only)
 	Pure      bool // no heap effect at all (modifies nothing)
@@ -433,6 +434,8 @@ func (cs *Contracts) parseContractLines(lines []string, file string, pkgPath str
 			cur.MayPanic = true
 		case "uncalled":
 			cur.Uncalled = true
+		case "nosafety":
+			cur.NoSafety = true
 		case "ghost_only":
 			cur.GhostOnly = true
 			cur.Assumed = true
